@@ -20,7 +20,7 @@ RULE = ('case = a tuple of well-typed PatternedTensor operands over common index
         'every public operation of the class and through short random programs; plus sum-product workloads under the construction hook. '
         'evaluations = operation instances compared; non-trivial = operand tuple with a non-dense pattern (sum/product/shared axis); '
         'distinct = distinct operand-tuple hashes')
-ASSUMPTIONS = ['nan defaults only with add/sub/mul and the structural operations (maximum/clamp/relu/comparisons use Python max/min/< on the default, which do not propagate NaN like torch)', 'unary maps on their real domains: log/log_ on tensors whose default is >= 0, log1p_ on default >= -1; division only where the divisor\'s default is non-zero (Python float arithmetic on defaults raises there)',
+ASSUMPTIONS = ['nan defaults only with add/sub/mul, comparisons and the structural operations (maximum/clamp/relu use Python max/min on the default, which do not propagate NaN like torch)', 'unary maps on their real domains: log/log_ on tensors whose default is >= 0, log1p_ on default >= -1; division only where the divisor\'s default is non-zero (Python float arithmetic on defaults raises there)',
                'norm only for defaults >= 0; relu_/clamp with a nan default excluded (Python max/min vs torch)',
                'positions where the dense torch reference is NaN because the operation is undefined there (log_softmax over all -inf or inf-containing slices) are unconstrained',
                'exact operations compared bitwise (NaN-aware, +0 == -0); div/exp/expm1/log/log1p/logaddexp/log_softmax/norm within 4 ulp or 1e-12 relative',
@@ -560,6 +560,12 @@ def run_case(tier, seed, index, spec=None):
         else:
             run_op(cx, 'add', lambda: t.add(u), lambda: d + e)
             run_op(cx, 'mul', lambda: t.mul(u), lambda: d * e)
+            run_op(cx, 'sub', lambda: t.sub(u), lambda: d - e)
+            # comparisons with NaN (default or stored) are False in Python and in torch alike
+            for nm in ('lt', 'le', 'gt', 'ge', 'eq'):
+                run_op(cx, nm, lambda: getattr(t, nm)(u), lambda: getattr(d, nm)(e))
+                s_ = rng.choice([0.0, 1.0, math.nan, math.inf])
+                run_op(cx, nm + '-scalar', lambda: getattr(t, nm)(s_), lambda: getattr(d, nm)(s_))
             # maximum/clamp/relu with a nan default: Python max() vs torch NaN propagation -- excluded (ASSUMPTIONS)
         unary(cx, rng, t, d, cls)
         shape_ops(cx, rng, I, t, u, d, e, specs[0])
